@@ -8,7 +8,7 @@ Steps (all in the scratch worktree /tmp/seedchk, never in /repo):
   seeded.py run --id <id> [--checks ...] [--tier quick]   re-runs step 5 for a stored change."""
 import argparse, json, os, shutil, subprocess, sys, time
 
-WT = "/tmp/seedchk"
+WT = os.environ.get("SEEDED_WT", "/tmp/seedchk")
 SEEDED = "/verif/seeded"
 
 
@@ -32,7 +32,7 @@ CXXFLAGS = ""
 
 
 def demo(src, tag):
-    exe = "/tmp/seedchk_demo_%s" % tag
+    exe = "%s_demo_%s" % (WT, tag)
     r = sh("g++ -std=c++20 %s -I%s/include %s -o %s" % (CXXFLAGS, WT, src, exe))
     if r.returncode:
         return "compile-error", r.stderr[-1500:]
